@@ -37,7 +37,8 @@ Definition ev_eqb {K} (keq : K -> K -> bool) (a b : ev K) : bool :=
 
 Definition exn_eqb (a b : exn) : bool :=
   match a, b with
-  | XInvalid, XInvalid | XTypeError, XTypeError | XKeyError, XKeyError | XNotFound, XNotFound => true
+  | XInvalid, XInvalid | XTypeError, XTypeError | XKeyError, XKeyError | XNotFound, XNotFound
+  | XDuplicate, XDuplicate => true
   | _, _ => false
   end.
 Definition outcome_eqb (a b : outcome) : bool :=
@@ -58,7 +59,7 @@ Definition coutcome_eqb (a b : coutcome) : bool :=
 Definition tbl_eqb (a b : list (Z * kwargs)) : bool :=
   list_eqb (fun p q => Z.eqb (fst p) (fst q) && kw_eqb (snd p) (snd q)) a b.
 Definition hs_view (hs : list (Z * hstate)) : list (Z * (kwargs * bool)) :=
-  map (fun p => (fst p, (h_pend (snd p), h_sup (snd p)))) hs.
+  map (fun p => (fst p, (h_pend (snd p), false))) hs.   (* the suppress flag never outlives _SO_setValue *)
 Definition hs_eqb (a b : list (Z * (kwargs * bool))) : bool :=
   list_eqb (fun p q => Z.eqb (fst p) (fst q) && kw_eqb (fst (snd p)) (fst (snd q))
                          && Bool.eqb (snd (snd p)) (snd (snd q))) a b.
